@@ -52,6 +52,9 @@ pub struct Faults {
 	pub kill: Vec<usize>,
 	pub signal: Vec<usize>,
 	pub wait: Vec<usize>,
+	/// the failing kill / signal calls report ESRCH ("no such process": what a process-group kill says once the group
+	/// is empty, which says nothing about the child itself) instead of a generic error
+	pub esrch: bool,
 }
 
 impl Faults {
@@ -59,11 +62,11 @@ impl Faults {
 		self.spawn.is_empty() && self.kill.is_empty() && self.signal.is_empty() && self.wait.is_empty()
 	}
 	pub fn to_json(&self) -> Value {
-		json!({"spawn": self.spawn, "kill": self.kill, "signal": self.signal, "wait": self.wait})
+		json!({"spawn": self.spawn, "kill": self.kill, "signal": self.signal, "wait": self.wait, "esrch": self.esrch})
 	}
 	pub fn from_json(v: &Value) -> Self {
 		let l = |k: &str| v[k].as_array().map(|a| a.iter().filter_map(|x| x.as_u64().map(|n| n as usize)).collect()).unwrap_or_default();
-		Self { spawn: l("spawn"), kill: l("kill"), signal: l("signal"), wait: l("wait") }
+		Self { spawn: l("spawn"), kill: l("kill"), signal: l("signal"), wait: l("wait"), esrch: v["esrch"].as_bool().unwrap_or(false) }
 	}
 }
 
@@ -286,7 +289,7 @@ impl TokioChildWrapper for SimChild {
 		let failed = self.world.faults.kill.contains(&n);
 		self.world.log(Ev::StartKill { k: self.k, failed });
 		if failed {
-			return Err(io::Error::other(format!("injected kill failure #{n}")));
+			return Err(if self.world.faults.esrch { io::Error::from_raw_os_error(libc::ESRCH) } else { io::Error::other(format!("injected kill failure #{n}")) });
 		}
 		self.exit_no_later_than(Instant::now(), 9);
 		Ok(())
@@ -349,7 +352,7 @@ impl TokioChildWrapper for SimChild {
 		let failed = self.world.faults.signal.contains(&n);
 		self.world.log(Ev::Signal { k: self.k, sig, failed });
 		if failed {
-			return Err(io::Error::other(format!("injected signal failure #{n}")));
+			return Err(if self.world.faults.esrch { io::Error::from_raw_os_error(libc::ESRCH) } else { io::Error::other(format!("injected signal failure #{n}")) });
 		}
 		if sig == 9 {
 			self.exit_no_later_than(Instant::now(), 9);
